@@ -257,7 +257,7 @@ def run(ctx):
     if q:
         opts = option_sets(ctx.seed)
         # every kind of run (also a second one within a clock second) and damage to every file, 5 operations; then
-        # 6 operations with an advancing clock and damage to the newest generation
+        # 6 operations with an advancing clock and damage to the data files
         graphs_replay(ctx, [dict(name='quick', c=consts(opts, 3, 5, 3, dev)),
                             dict(name='quick-steady-clock', c=consts(opts, 3, 6, 3, dev), next_='NextClassic')], cov)
     else:
